@@ -252,7 +252,7 @@ def run(tier):
     r = run_tlc("MC_Screw", "Screw", timeout=600)
     n = 0
     seen = set()
-    lens = [1e-3, 1.0, 1e3, 1e6]
+    lens = [1e-3, 1.0, 1e3, 1e6, 1.000004, 0.999994, 1.0 + 3e-8]       # incl. lengths that are ALMOST one
     for e in r.json:
         c = e["c"]
         key = str(c)
@@ -263,7 +263,7 @@ def run(tier):
             n += 1
             if not thorough and n % 5 and not quarter(c["q"]):
                 continue
-            revolute_case(j, e, lens[n % 4], rng, [1.0, 1e3, 1.0, 30.0, 1e3][n % 5] if thorough else [1.0, 1e3][(n // 5) % 2])
+            revolute_case(j, e, lens[n % len(lens)], rng, [1.0, 1e3, 1.0, 30.0, 1e3][n % 5] if thorough else [1.0, 1e3][(n // 5) % 2])
         elif c["k"] == "screw2":
             for sg in (1.0, 1e3):
                 planar_case(j, e, rng, sg)
